@@ -140,6 +140,9 @@ pub struct Parser {
 
     last_char: char,
     pub(crate) macros: HashMap<usize, String>,
+    /// nesting depth of the macro invocation being expanded and characters it may still expand to
+    macro_depth: usize,
+    macro_budget: usize,
     pub parse_string: String,
     pub macro_dcs: String,
     pub bs_is_ctrl_char: bool,
@@ -162,6 +165,8 @@ impl Default for Parser {
             parse_string: String::new(),
             macro_dcs: String::new(),
             macros: HashMap::new(),
+            macro_depth: 0,
+            macro_budget: 0,
             last_char: '\0',
             hyper_links: Vec::new(),
             bs_is_ctrl_char: false,
@@ -1454,11 +1459,24 @@ impl Parser {
         } else {
             return;
         };
+        // a macro may invoke macros (including itself): bound the nesting and the total expansion
+        if self.macro_depth == 0 {
+            self.macro_budget = MAX_MACRO_EXPANSION;
+        }
+        if self.macro_depth >= MAX_MACRO_DEPTH {
+            return;
+        }
+        self.macro_depth += 1;
         for ch in m.chars() {
+            if self.macro_budget == 0 {
+                break;
+            }
+            self.macro_budget -= 1;
             if let Err(err) = self.print_char(buf, current_layer, caret, ch) {
                 log::error!("Error during macro invocation: {}", err);
             }
         }
+        self.macro_depth -= 1;
     }
 
     fn execute_aps_command(&self, _buf: &mut Buffer, _caret: &mut Caret) {
@@ -1480,6 +1498,10 @@ fn set_font_selection_success(buf: &mut Buffer, caret: &mut Caret, slot: usize) 
         buf.terminal_state.normal_attribute_font_slot = slot;
     }
 }
+
+/// Macro space reported by DSR 62 (`CSI ? 62 n`): one invocation expands to at most this many characters.
+const MAX_MACRO_EXPANSION: usize = 32767;
+const MAX_MACRO_DEPTH: usize = 16;
 
 pub fn parse_next_number(x: i32, ch: u8) -> i32 {
     x.saturating_mul(10).saturating_add(ch as i32).saturating_sub(b'0' as i32)
